@@ -215,7 +215,12 @@ func (m *C07) OnRequest(e *scen.Env, req *simkube.Request) {
 }
 
 // C08 - nothing serving is archived or deleted.
-type C08 struct{ Base }
+type C08 struct {
+	Base
+	// trustedPausedAvailable: archived revision -> newer revision whose Available=True was reported while it was paused
+	// (probing without taking control) and which did not control everything the archived revision controlled
+	trustedPausedAvailable map[string]string
+}
 
 func (m *C08) OnRequest(e *scen.Env, req *simkube.Request) {
 	if !req.IsWrite() || req.DryRun || req.Err != nil || req.Pass == nil {
@@ -263,6 +268,26 @@ func (m *C08) OnRequest(e *scen.Env, req *simkube.Request) {
 			}
 			if newerAvailable {
 				e.Count("c08_archival_case_newer_available")
+				for _, s := range sets[idx+1:] {
+					av, pa := s.Cond("Available"), s.Cond("Paused")
+					if av == nil || av.Status != "True" || pa == nil || pa.Status != "True" {
+						continue
+					}
+					has := map[string]bool{}
+					for _, co := range s.ControllerOf {
+						has[fmt.Sprintf("%s/%s/%s/%s", co.Group, co.Kind, co.Namespace, co.Name)] = true
+					}
+					listed := ownerObjects(s)
+					for _, co := range r.ControllerOf {
+						id := fmt.Sprintf("%s/%s/%s/%s", co.Group, co.Kind, co.Namespace, co.Name)
+						if listed[id] && !has[id] {
+							if m.trustedPausedAvailable == nil {
+								m.trustedPausedAvailable = map[string]string{}
+							}
+							m.trustedPausedAvailable[r.Name] = s.Name
+						}
+					}
+				}
 				return
 			}
 			rAvail := false
@@ -368,6 +393,10 @@ func (m *C08) OnRequest(e *scen.Env, req *simkube.Request) {
 			if owner.Deleting && !owner.Archived {
 				// the outgoing revision was never archived: history pruning deleted it while it was active
 				sig += ":revision-pruned-while-not-archived"
+			} else if by := m.trustedPausedAvailable[owner.Name]; by != "" {
+				// archival trusted the Available=True a newer revision reported while paused: a paused revision probes the
+				// objects it lists without taking control of them
+				sig += ":archived-on-available-reported-by-paused-revision-not-controlling-the-object"
 			} else if !reported {
 				// the outgoing revision controlled the object but its status.controllerOf did not say so
 				// (the list stops at the first failing phase), so the archival decision could not see the overlap
